@@ -53,6 +53,7 @@ var pool = []request{
 	{name: "alias k, literal", q: `{ k: f(x: 1) o { x } }`},
 	{name: "alias j, other literal", q: `{ j: f(x: 2) o { x } }`},
 	{name: "no alias, variable", q: `query($x: Int = 3) { f(x: $x) o { x } }`},
+	{name: "one literal at a nullable and at a non-null position", q: `{ f(x: 7) r(q: 7) }`},
 }
 
 var curX *explore.X
@@ -141,6 +142,7 @@ func run(c *core.Ctx) {
 	g := gen.Kitchen()
 	// a deprecated field and value so that includeDeprecated lists have content
 	g.Types["O"].Fields = append(g.Types["O"].Fields, &gen.FieldDef{Name: "aOld", Type: gen.Named("String"), Deprecated: "old"})
+	g.Types["Query"].Fields = append(g.Types["Query"].Fields, gen.F("r(q:Int!):String"))
 	f, err := execx.NewFixture(g, bridge.Options{})
 	if err != nil {
 		c.R.HarnessError("fixture: %v", err)
@@ -344,6 +346,7 @@ func firstDiff(a, b string, n int) string {
 func replay(c *core.Ctx, p map[string]interface{}) (bool, string) {
 	g := gen.Kitchen()
 	g.Types["O"].Fields = append(g.Types["O"].Fields, &gen.FieldDef{Name: "aOld", Type: gen.Named("String"), Deprecated: "old"})
+	g.Types["Query"].Fields = append(g.Types["Query"].Fields, gen.F("r(q:Int!):String"))
 	f, err := execx.NewFixture(g, bridge.Options{})
 	if err != nil {
 		return false, err.Error()
